@@ -217,7 +217,7 @@ def field_effects(prog, g=None):
     g = g or call_graph(prog)
     eff = {}
     for name, f in prog.lib_functions().items():
-        e = {"w": set(), "r": set(), "addr": set(), "gw": set(), "gr": set(), "sites": []}
+        e = {"w": set(), "r": set(), "addr": set(), "gw": set(), "gr": set(), "gaddr": set(), "sites": []}
         locals_ = set()
         for m in walk(f):
             if m.get("kind") in ("VarDecl", "ParmVarDecl") and m.get("storageClass") != "static":
@@ -237,7 +237,7 @@ def field_effects(prog, g=None):
                 if a.ctx in ("w", "rw"):
                     e["gw"].add(root)
                 elif a.ctx == "addr":
-                    e["gw"].add(root)
+                    e["gaddr"].add(root)
                     e["gr"].add(root)
                 else:
                     e["gr"].add(root)
